@@ -136,6 +136,106 @@ pub fn run_one_with(depth: u8, extra: u8, k: u8, registered_late: bool, update: 
     rep
 }
 
+/// A *registration* made inside a reorg: a new user (or, `renewal`, the user registered before the reorged blocks) registers
+/// right before the k-th replacement block is fetched. Oracle: a new subscription starts at the tower's height at that
+/// instant (fork + k - 1) and expires `duration` later; a renewal keeps its start and moves the expiry by one duration and
+/// the slots by one grant; the persisted row equals the receipt; the subscription is usable after the poll.
+pub fn run_register(depth: u8, extra: u8, k: u8, renewal: bool, late: bool) -> CaseReport {
+    const SLOTS: u32 = 10;
+    const DURATION: u32 = 1000;
+    let mut rep = CaseReport::default();
+    let node = Node::new(START_HEIGHT, false);
+    {
+        let mut st = node.lock();
+        for c in 0..8u32 {
+            st.funded.insert(txs::funding(SALT, c));
+        }
+    }
+    let dir = scratch_dir(&format!("inreorg-reg-{depth}-{extra}-{k}-{renewal}-{late}-{:?}", std::thread::current().id()).replace(['(', ')'], ""));
+    let _ = std::fs::remove_dir_all(&dir);
+    let mut tower = match Tower::boot(node.clone(), &dir, TowerCfg { slots: SLOTS, duration: DURATION, grace: 6 }) {
+        Ok(t) => t,
+        Err(e) => {
+            rep.violations.push(v("boot-failed", format!("{e:?}")));
+            return rep;
+        }
+    };
+    let who: u8 = if renewal { 0 } else { 1 };
+    // the other user registers either below the blocks that will be reorged away or on top of them
+    let setup = if late { vec![Op::MineMany { n: depth, take: Take::All }, Op::Poll, Op::Register { u: 0 }] } else { vec![Op::Register { u: 0 }, Op::MineMany { n: depth, take: Take::All }, Op::Poll] };
+    for op in &setup {
+        if let Err(e) = setup_op(&node, &mut tower, op) {
+            rep.violations.push(v("setup-failed", format!("{op:?}: {e}")));
+            return rep;
+        }
+    }
+    let tip_before = node.lock().tip_height();
+    let fork = tip_before - depth as u32;
+    let first = tower.snapshot().users.get(&crate::world::user_pk(0).serialize().to_vec()).cloned();
+    let n_new = depth as usize + extra as usize;
+    node.lock().reorg(depth as usize, &vec![vec![]; n_new], false);
+    let reply: Arc<Mutex<Option<String>>> = Arc::new(Mutex::new(None));
+    {
+        let api = tower.api.clone();
+        let reply2 = reply.clone();
+        *node.get_block_hook.lock().unwrap() = Some((
+            k as usize,
+            Box::new(move || {
+                let api = api.clone();
+                let r = std::thread::spawn(move || api_call(&api, &Op::Register { u: who })).join().unwrap_or_else(|_| "handler panicked".into());
+                *reply2.lock().unwrap() = Some(r);
+            }),
+        ));
+    }
+    if let Err(p) = tower.poll() {
+        rep.violations.push(Violation { property: "C11".into(), signature: crate::panics::signature(&p), message: format!("chain processing aborted: {p}") });
+        return rep;
+    }
+    let height = fork + k as u32 - 1;
+    let what = format!("reorg of depth {depth} (+{extra}), {} made right before replacement block #{k} is fetched (the tower stands at {height}; it stood at {tip_before} before the poll; user 0 registered at {})", if renewal { "renewal" } else { "first registration" }, if late { tip_before } else { fork });
+    let want = if renewal {
+        match first {
+            Some((slots, start, expiry)) => (slots + SLOTS, start, expiry + DURATION),
+            None => {
+                rep.violations.push(v("harness:no-first-registration", what));
+                return rep;
+            }
+        }
+    } else {
+        (SLOTS, height, height + DURATION)
+    };
+    let r = reply.lock().unwrap().clone();
+    match r {
+        None => rep.violations.push(v("harness:hook-not-reached", format!("{what}: the hook did not fire"))),
+        Some(r) => {
+            let expected = format!("registered(slots={},start={},expiry={})", want.0, want.1, want.2);
+            if !r.starts_with("registered(") {
+                rep.violations.push(v("registration-inside-a-reorg-refused", format!("{what}: answered {r}")));
+            } else {
+                if r != expected {
+                    rep.violations.push(Violation { property: "C09".into(), signature: "registration-inside-a-reorg-not-counted-from-the-tower-height".into(), message: format!("{what}: answered {r}, expected {expected}") });
+                }
+                let row = tower.snapshot().users.get(&crate::world::user_pk(who).serialize().to_vec()).cloned();
+                let row_s = row.map(|(s, a, e)| format!("registered(slots={s},start={a},expiry={e})"));
+                if row_s.as_deref() != Some(r.as_str()) {
+                    rep.violations.push(v("stored-subscription-differs-from-registration-receipt", format!("{what}: receipt {r}, stored {row_s:?}")));
+                }
+                let add = api_call(&tower.api, &Op::Add { u: who, chan: 2, dvar: 0, blob: BlobKind::Valid { len: 0, var: 0 }, delay: 42, sig: SigKind::Good });
+                if !add.starts_with("accepted(") {
+                    rep.violations.push(v("subscription-made-inside-a-reorg-is-not-usable", format!("{what}: add_appointment afterwards answers {add}")));
+                }
+            }
+        }
+    }
+    rep.nontrivial = true;
+    rep.classes = vec![format!("registration-inside-reorg:depth{depth}"), if height < tip_before { "tower-lower-than-before-the-poll".into() } else { "tower-not-lower".into() }];
+    rep.key = format!("reg/{depth}/{extra}/{k}/{renewal}/{late}");
+    rep.sample = Some(json!({"registration_inside_reorg": {"depth": depth, "extra": extra, "k": k, "renewal": renewal, "other_user_registered_on_top_of_the_reorged_blocks": late}}));
+    drop(tower);
+    let _ = std::fs::remove_dir_all(&dir);
+    rep
+}
+
 /// The whole family; failures are pushed into `stats` with a replayable description.
 pub fn run_all(stats: &mut Stats) -> u64 {
     let mut n = 0;
@@ -157,6 +257,16 @@ pub fn run_all(stats: &mut Stats) -> u64 {
                     }
                   }
                 }
+                for (renewal, late) in [(false, false), (false, true), (true, false), (true, true)] {
+                    let rep = run_register(depth, extra, k, renewal, late);
+                    n += 1;
+                    stats.absorb(&rep);
+                    if let Some(viol) = rep.violations.first() {
+                        if !stats.failures.iter().any(|(w, _)| w.signature == viol.signature) {
+                            stats.failures.push((viol.clone(), json!({"inside_reorg": {"depth": depth, "extra": extra, "k": k, "register": true, "renewal": renewal, "late": late}})));
+                        }
+                    }
+                }
             }
         }
     }
@@ -165,5 +275,8 @@ pub fn run_all(stats: &mut Stats) -> u64 {
 
 pub fn replay(case: &Value) -> Option<CaseReport> {
     let c = case.get("inside_reorg")?;
+    if c["register"].as_bool().unwrap_or(false) {
+        return Some(run_register(c["depth"].as_u64()? as u8, c["extra"].as_u64()? as u8, c["k"].as_u64()? as u8, c["renewal"].as_bool()?, c["late"].as_bool().unwrap_or(false)));
+    }
     Some(run_one_with(c["depth"].as_u64()? as u8, c["extra"].as_u64()? as u8, c["k"].as_u64()? as u8, c["late"].as_bool()?, c["update"].as_bool().unwrap_or(false)))
 }
